@@ -769,7 +769,7 @@ pub fn decompress(comp: u8, input: &[u8]) -> Result<Vec<u8>, String> {
             loop {
                 let before = (d.total_in(), d.total_out());
                 let st = d
-                    .decompress_vec(&input[d.total_in() as usize..], &mut out, flate2::FlushDecompress::Finish)
+                    .decompress_vec(&input[d.total_in() as usize..], &mut out, flate2::FlushDecompress::None)
                     .map_err(|e| format!("zlib: {}", e))?;
                 match st {
                     flate2::Status::StreamEnd => break,
